@@ -116,13 +116,15 @@ type field struct {
 	name string
 	vals []val
 	lite int // 0 = both modes, 1 = only meaningful with lite on, -1 = only classic
+	// single: applied as a single deviation only (never paired with a second field)
+	single bool
 }
 
 func repeat(s string, n int) string { return strings.Repeat(s, n) }
 
 func fields() []field {
 	var fs []field
-	add := func(name string, lite int, vs ...val) { fs = append(fs, field{name, vs, lite}) }
+	add := func(name string, lite int, vs ...val) { fs = append(fs, field{name: name, vals: vs, lite: lite}) }
 
 	var binds []val
 	for _, b := range []string{"", " ", "\t", "localhost", ":25565", "0.0.0.0:", "[::1]:25565", "::1:25565", "[::1]", "a:b:c", "1.2.3.4:99999", "0.0.0.0:abc", " 0.0.0.0:25565", "[::1:25565", "host]:1"} {
@@ -274,7 +276,99 @@ func fields() []field {
 		strategies = append(strategies, val{fmt.Sprintf("%q", s), func(c *config.Config) { r0(c).Strategy = liteconfig.Strategy(s) }})
 	}
 	add("lite.routes[0].strategy", 1, strategies...)
+
+	// the same constraints on a route that is NOT the first one (a second route is appended when
+	// the list is shorter)
+	rLast := func(c *config.Config) *liteconfig.Route {
+		rs := cowRoutes(c)
+		if len(rs) < 2 {
+			rs = append(rs, liteconfig.Route{Host: []string{"second.example.test"}, Backend: []string{"localhost:25570"}})
+			c.Config.Lite.Routes = rs
+		}
+		return &rs[len(rs)-1]
+	}
+	add("lite.routes[last]", 1,
+		val{"strategy=x", func(c *config.Config) { rLast(c).Strategy = "x" }},
+		val{"strategy=random", func(c *config.Config) { rLast(c).Strategy = "random" }},
+		val{"backend=host:abc", func(c *config.Config) { rLast(c).Backend = []string{"localhost:25566", "host:abc"} }},
+		val{"backend=none", func(c *config.Config) { rLast(c).Backend = nil }},
+		val{"host=none", func(c *config.Config) { rLast(c).Host = nil }},
+		val{"host=two", func(c *config.Config) { rLast(c).Host = []string{"c.example.test", "d.example.test"} }},
+	)
+
+	// optional sections switched ON (in a way that satisfies their own rules): Validate reads
+	// these switches on its way to the listed constraints, so every listed constraint must keep
+	// its verdict with each of them on (pairs with every other field).
+	add("feature-switch", 0,
+		val{"via.enabled", func(c *config.Config) { c.Config.Via.Enabled = true }},
+		val{"via.enabled,embedded,bind", func(c *config.Config) {
+			c.Config.Via.Enabled = true
+			c.Config.Via.Mode = "embedded"
+			c.Config.Via.Bind = "127.0.0.1:25570"
+		}},
+		val{"bedrock.enabled", func(c *config.Config) { c.Config.Bedrock.Enabled = true }},
+		val{"api.enabled", func(c *config.Config) { c.API.Enabled = true }},
+		val{"healthService.enabled", func(c *config.Config) { c.HealthService.Enabled = true }},
+		val{"packetLimiter.rate-without-interval", func(c *config.Config) {
+			c.Config.PacketLimiter = jconfig.PacketLimiter{PacketsPerSecond: 10, BytesPerSecond: 1000}
+		}},
+	)
+
+	// every leaf of the configuration struct, one at a time: zero value / flipped bool / +1
+	fs = append(fs, field{name: "leaf", vals: leafVals(), single: true})
 	return fs
+}
+
+// leafVals walks config.Config by reflection (nested structs by value; pointers, collections and
+// types with their own (un)marshalling are leaves) and yields, per leaf, the deviations "zero
+// value", "flipped" (bool) and "+1" (numbers) from whatever the base holds. These matter for the
+// serialize-and-reload half of the property (a field whose default is not its zero value, a
+// custom codec) and re-check the verdict oracle on settings no alphabet above touches.
+func leafVals() []val {
+	var out []val
+	var walk func(t reflect.Type, idx []int, name string)
+	isLeafStruct := func(t reflect.Type) bool {
+		pt := reflect.PointerTo(t)
+		for _, m := range []string{"MarshalYAML", "MarshalJSON", "UnmarshalYAML", "UnmarshalJSON", "MarshalText"} {
+			if _, ok := pt.MethodByName(m); ok {
+				return true
+			}
+		}
+		for i := 0; i < t.NumField(); i++ {
+			if t.Field(i).IsExported() {
+				return false
+			}
+		}
+		return true
+	}
+	at := func(c *config.Config, idx []int) reflect.Value { return reflect.ValueOf(c).Elem().FieldByIndex(idx) }
+	walk = func(t reflect.Type, idx []int, name string) {
+		for i := 0; i < t.NumField(); i++ {
+			f := t.Field(i)
+			if !f.IsExported() {
+				continue
+			}
+			p := append(append([]int{}, idx...), i)
+			n := name + "." + f.Name
+			if f.Type.Kind() == reflect.Struct && !isLeafStruct(f.Type) {
+				walk(f.Type, p, n)
+				continue
+			}
+			out = append(out, val{n + "=zero", func(c *config.Config) { v := at(c, p); v.Set(reflect.Zero(v.Type())) }})
+			switch f.Type.Kind() {
+			case reflect.Bool:
+				out = append(out, val{n + "=flipped", func(c *config.Config) { v := at(c, p); v.SetBool(!v.Bool()) }})
+			case reflect.Int, reflect.Int8, reflect.Int16, reflect.Int32, reflect.Int64:
+				out = append(out, val{n + "=+1", func(c *config.Config) { v := at(c, p); v.SetInt(v.Int() + 1) }})
+			case reflect.Uint, reflect.Uint8, reflect.Uint16, reflect.Uint32, reflect.Uint64:
+				out = append(out, val{n + "=+1", func(c *config.Config) { v := at(c, p); v.SetUint(v.Uint() + 1) }})
+			case reflect.Float32, reflect.Float64:
+				out = append(out, val{n + "=+0.5", func(c *config.Config) { v := at(c, p); v.SetFloat(v.Float() + 0.5) }})
+			}
+		}
+	}
+	walk(reflect.TypeOf(config.Config{}), nil, "")
+	return out
 }
 
 // ---------------------------------------------------------------------------------------------
@@ -683,6 +777,10 @@ func runCase(r *vrt.R, id caseID, sets ...func(*config.Config)) {
 	case len(errs) == 0 && len(br) > 0:
 		r.Violation("Validate/accepts-broken-constraint/"+br[0], fmt.Sprintf("%v: documented constraint(s) %v broken but Validate reported no error", id, br), id)
 		return
+	case len(errs) > 0 && len(br) == 0 && id.F1 == "leaf" && (strings.HasPrefix(id.V1, ".Config.Bedrock.") || strings.HasPrefix(id.V1, ".Config.Via.") || strings.HasPrefix(id.V1, ".Connect.")):
+		// the section has rules of its own that the statement does not list: no verdict oracle
+		r.Class("rejected:by-a-rule-outside-the-listed-constraints")
+		return
 	case len(errs) > 0 && len(br) == 0:
 		r.Violation("Validate/rejects-documented-config/"+errTemplate(errs[0]), fmt.Sprintf("%v: no documented constraint is broken but Validate reported %v", id, errs), id)
 		return
@@ -883,8 +981,11 @@ func TestVerif(t *testing.T) {
 					if r.Expired() {
 						return
 					}
+					if f1.single {
+						continue
+					}
 					for _, f2 := range fs[i+1:] {
-						if f2.lite == 1 && !lite {
+						if f2.lite == 1 && !lite || f2.single {
 							continue
 						}
 						if r.Quick() && lite && f1.lite == -1 && f2.lite == -1 {
